@@ -90,6 +90,24 @@ int main(int argc,char** argv){
       bool ok3=tablesearchcenters(&ct,x.data(),c3.data());
       c.resize(nd); c2.resize(nd); c3.resize(nd);
       os<<" sc.member="<<centers_str(ok,c)<<" sc.ev="<<centers_str(ok2,c2)<<" sc.c="<<centers_str(ok3,c3);
+      // the output array is an OUT parameter: what it holds on entry (the centers of a previous point or of another table) must not matter
+      for(int hint=1;hint<=5;hint++){
+        std::vector<int> ch(nd+2,-777);
+        for(uint32_t d=0;d<nd;d++){
+          long nk=(long)t.get_nknots(d), o=(long)t.get_order(d), v=0;
+          switch(hint){
+            case 1: v= ok ? c[d]+1 : nk-2; break;
+            case 2: v= nk-2; break;
+            case 3: v= nk-o-1; break;                       // the first span of the right margin
+            case 4: v= o>0 ? o-1 : 0; break;                // the last span of the left margin
+            default: { uint64_t b; double xv=x[d]; memcpy(&b,&xv,8); v=(long)(((b>>7)^(b>>29)^(uint64_t)(d*2654435761u))%(uint64_t)std::max<long>(nk,1)); }
+          }
+          ch[d]=(int)v;
+        }
+        bool okh=tablesearchcenters(&ct,x.data(),ch.data());
+        ch.resize(nd);
+        os<<" sc.ch"<<hint<<"="<<centers_str(okh,ch);
+      }
       os<<" var." TSUF ".f="<<variant_of(evf)<<" var." TSUF ".d="<<variant_of(evd);
       if(ok){
         run_precision<float>("f",t,evf,x,c,masks,ks,os);
